@@ -146,7 +146,8 @@ def run(ctx):
         if rq >= 1 and l >= 1 and (nconf >= 2 or not c["notify"]):
             nontriv.add(canon_hash([c["notify"], c["ops"], c["events"]]))
     ctx.coverage.update({
-        "evaluations": sum(len(c["ops"]) for c in cases),
+        "evaluations": sum(len(c["ops"]) for c in cases if not c.get("durable")),
+        "oracle_only_steps_durable": sum(len(c["ops"]) for c in cases if c.get("durable")),
         "distinct_nontrivial": len(nontriv),
         "rule": "one evaluation = one step of the real controller's Receive compared with the Coq model (traffic per recipient, pending, every binding in bindingOrder, cursor, handshake); "
                 "a case is non-trivial when a worker holding unconfirmed jobs stopped (requeue exercised), at least one worker left, and >= 2 jobs were confirmed; distinct by (notify, ops, events)",
